@@ -81,7 +81,9 @@ fn generic(d: &mut Drv) {
             d.call("v_face", || ff(&b, &c), || o(va.face_forward(vb, vc)));
             // angle between: b2 = a2 rotated by a token angle in a coordinate plane, both with rational length
             let (a2, _) = ratvec(d, $n);
-            let (bi, k) = (d.rng.gen_range(0..2u8), d.rng.gen_range(0..=4i64));
+            // magnitudes stay within TLC's 32-bit integers: the (12/13, 5/13) base only up to the second multiple
+            let bi = d.rng.gen_range(0..2u8);
+            let k = if bi == 0 { d.rng.gen_range(0..=3i64) } else { d.rng.gen_range(0..=2i64) };
             let (i0, i1) = { let i = d.pick($n); let mut j = d.pick($n); if j == i { j = (i + 1) % $n; } (i, j) };
             let (cs, sn) = Q::angle(bi, k).cos_sin();
             let mut b2 = a2.clone();
@@ -159,11 +161,12 @@ fn specific(d: &mut Drv) {
     // spherical interpolation of 3D vectors: a rational orthonormal frame gives a unit axis and a unit vector
     // orthogonal to it; from = lambda * that vector, to = mu * lambda * R(axis, k*phi) * it, factor j/k
     {
-        let fr = rot_of_quat(&unitquat(&mut d.rng, 2));
+        let fr = rot_of_quat(&unitquat(&mut d.rng, 1));
         let axis: Vec<Q> = (0..3).map(|i| fr[i][0]).collect();
         let fl = Q::frac(d.rng.gen_range(1..=4), [1, 2][d.pick(2)]);
         let from: Vec<Q> = (0..3).map(|i| fr[i][1] * fl).collect();
-        let (bi, k) = (d.rng.gen_range(0..2u8), d.rng.gen_range(1..=4i64));
+        let bi = d.rng.gen_range(0..2u8);
+        let k = if bi == 0 { d.rng.gen_range(1..=4i64) } else { d.rng.gen_range(1..=2i64) };
         let (cs, sn) = Q::angle(bi, k).cos_sin();
         let w = [axis[1] * from[2] - axis[2] * from[1], axis[2] * from[0] - axis[0] * from[2], axis[0] * from[1] - axis[1] * from[0]];
         let mu = Q::frac(d.rng.gen_range(1..=4), 2);
